@@ -197,6 +197,20 @@ class Engine:
             raise Inconclusive("z3 answered unknown on a verification condition: %s" % s.reason_unknown())
         return s.model() if r == Z.sat else None
 
+    def models(self, neg, variables, k=6):
+        """Up to k models of PC /\\ neg that differ on `variables` (diverse concrete
+        counterexample candidates for behaviours that depend on solver choices)."""
+        s = Z.Solver()
+        s.set("timeout", self.vc_timeout_ms)
+        s.add(*self.pc())
+        s.add(neg)
+        out = []
+        while len(out) < k and s.check() == Z.sat:
+            m = s.model()
+            out.append(m)
+            s.add(Z.Or(*[v != m.eval(v, model_completion=True) for v in variables]))
+        return out
+
     # -- exploration --------------------------------------------------------------------
     def _backtrack(self):
         while len(self.frames) > self.base and self.frames[-1].exhausted:
